@@ -266,3 +266,10 @@ mut("c10-operator-text-uses-wrong-number", "C10", "cardutil/cli/__init__.py",
     "        print(f'Error detected in record {err.record_number}')",
     "        print(f'Error detected in record {err.record_number - (1 if err.ex else 0)}')",
     note="operator report subtracts one for wrapped (message-level) errors: error object is right, the printed text is not")
+
+# ---- history-dependent (sticky class-level state): replayed as a whole task ------------------------
+mut("c03-finalised-flag-on-class", "C03", MC,
+    "        self.out_file.seek(0)\n        self._finalised = True",
+    "        self.out_file.seek(0)\n        VbsWriter._finalised = True",
+    more=[(MC, "        self._finalised = False\n        self.out_file = out_file", "        self.out_file = out_file")],
+    note="finalised flag kept on the class: the first writer of a process finalises, every later one silently does not (no terminator / no 1014 fill). A single scenario replayed alone passes; the check must fall back to a task-history replay")
